@@ -71,9 +71,29 @@ function genObject(rng, d, names, forceKey) {
   for (const [k, v] of props) Object.defineProperty(o, k, { value: v, enumerable: true, configurable: true, writable: true });
   const plist = Object.keys(o).map((k) => [k, o[k]]);
   const indexed = [];
-  if (!forceKey && rng.chance(1, 6)) {
-    const key = rng.pick([[A("typeof"), "string"], [A("typeof"), "string"], [A("consts"), [A("s"), "a"], [A("s"), "b"]], [A("strfmt"), "fa"], [A("regex"), [A("tpl"), [A("lit"), "k"], A("num")], "`k${number}`"], [A("typeof"), "number"]]);
-    let val = genRT(rng, d - 1, names);
+  if (!forceKey && rng.chance(1, 4)) {
+    const key = rng.pick([[A("typeof"), "string"], [A("typeof"), "string"], [A("typeof"), "string"], [A("consts"), [A("s"), "a"], [A("s"), "b"]], [A("strfmt"), "fa"], [A("regex"), [A("tpl"), [A("lit"), "k"], A("num")], "`k${number}`"], [A("typeof"), "number"]]);
+    let val;
+    if (rng.chance(1, 2)) {
+      // TypeScript-like: every declared property type is assignable to the index value type, which projects
+      // differently (any / a wider object type with fewer members)
+      if (rng.chance(1, 2)) val = A("any");
+      else {
+        const wide = genObject(rng, 1, names);
+        val = wide;
+        if (wide[2].length === 0) {
+          for (let i = 0; i < plist.length; i++) {
+            if (rng.chance(1, 2)) {
+              const extra = new Map(wide[1].map(([k, t]) => [k, t]));
+              extra.set(rng.pick(["y", "z"]), genLeaf(rng));
+              const o = {};
+              for (const [k, v] of extra) Object.defineProperty(o, k, { value: v, enumerable: true, configurable: true, writable: true });
+              plist[i] = [plist[i][0], [A("object"), Object.keys(o).map((k) => [k, o[k]]), []]];
+            }
+          }
+        }
+      }
+    } else val = genRT(rng, d - 1, names);
     if (rng.chance(1, 4)) val = [A("opt"), val];
     indexed.push([key, val]);
   }
